@@ -174,6 +174,7 @@ def cli(argv=sys.argv, mode='output'):
 # Launcher
 def main():
     setup_SIGINT()
+    too_large = None
     try:
 
         cli(sys.argv, mode='output')
@@ -206,10 +207,15 @@ def main():
         sys.exit(-1)
 
     except (OverflowError, MemoryError, RecursionError) as e:
-        # sizes beyond what the machine (or python) can handle
+        # sizes beyond what the machine (or python) can handle: the
+        # report is written once the exception, and the memory that
+        # it keeps alive, are gone
+        too_large = type(e).__name__
+
+    if too_large is not None:
         with msg_prefix('c '):
             error_msg("ERROR: the request is too large to be served "
-                      "({})".format(type(e).__name__))
+                      "({})".format(too_large))
         sys.exit(-1)
 
     # avoid signaling BrokenPipeError as whatnot
